@@ -153,7 +153,7 @@ theorem callClosure_ok {N : NumOps} (ρ : ExtOracle N) (hCF : ∀ n, cx.CF N (ca
       exact (fundB hbb).2 N _ ρ n _ _ _ _ _ (callClosure_ok ρ hCF n) hs1 ⟨rfl, he1⟩⟩
 
 /-- the empty injection -/
-def emptyRel : CellRel := fun _ _ => False
+def emptyRel : CellRel := ⟨fun _ _ => False, 0, 0⟩
 
 /-- the initial dead set: the watched globals -/
 def watD (cx : Cx) : List DName := cx.W.map DName.wat
@@ -178,10 +178,11 @@ theorem SRel.init {N : NumOps} (σ : State N) (hG : ∀ p ∈ cx.G N, σ.getGlob
   trace := rfl
   ginv := hG
   finv := hF
-  inj := fun h => h.elim
-  bound := fun h => h.elim
-  cell := fun h => h.elim
+  inj := fun h => False.elim h
+  bound := fun h => False.elim h
+  cell := fun h => False.elim h
   closures := hcl
+  front := ⟨Nat.zero_le _, Nat.zero_le _⟩
 
 theorem runChunk_rel {N : NumOps} (ρ : ExtOracle N) (hCF : ∀ n, cx.CF N (callClosure ρ n)) (n : Nat)
     {b b' : Block} {D' : List DName}
